@@ -6,7 +6,21 @@ package meta
 
 import (
 	"sync/atomic"
+	"unicode/utf8"
 )
+
+// emptyMatchStep returns how far the FindAll-style loops advance after an empty match
+// at pos: the width of the UTF-8 sequence that starts at haystack[pos], exactly as Go's
+// regexp does (a byte that does not start a well-formed sequence has width 1). At the
+// end of the input it returns 1, so that the callers' pos > len(haystack) test ends
+// the loop.
+func emptyMatchStep(haystack []byte, pos int) int {
+	if pos >= len(haystack) || haystack[pos] < utf8.RuneSelf {
+		return 1
+	}
+	_, size := utf8.DecodeRune(haystack[pos:])
+	return size
+}
 
 // FindSubmatch returns the first match with capture group information.
 // Returns nil if no match is found.
@@ -249,7 +263,7 @@ func (e *Engine) findAllIndicesLoop(haystack []byte, n int, results [][2]int) []
 		// - "a*" on "ab" returns [[0 1] [2 2]], not [[0 1] [1 1] [2 2]]
 		//nolint:gocritic // badCond: intentional - checking empty match (start==end) at lastMatchEnd
 		if start == end && start == lastMatchEnd {
-			pos++
+			pos += emptyMatchStep(haystack, pos)
 			if pos > len(haystack) {
 				break
 			}
@@ -266,8 +280,8 @@ func (e *Engine) findAllIndicesLoop(haystack []byte, n int, results [][2]int) []
 		// Move position past this match
 		switch {
 		case start == end:
-			// Empty match: advance by 1 to avoid infinite loop
-			pos = end + 1
+			// Empty match: advance past the next code point (stdlib behavior)
+			pos = end + emptyMatchStep(haystack, end)
 		case end > pos:
 			pos = end
 		default:
@@ -341,7 +355,7 @@ func (e *Engine) Count(haystack []byte, n int) int {
 		// Skip empty matches at lastNonEmptyEnd (stdlib behavior)
 		//nolint:gocritic // badCond: intentional - checking empty match (start==end) at lastNonEmptyEnd
 		if start == end && start == lastNonEmptyEnd {
-			pos++
+			pos += emptyMatchStep(haystack, pos)
 			if pos > len(haystack) {
 				break
 			}
@@ -358,8 +372,8 @@ func (e *Engine) Count(haystack []byte, n int) int {
 		// Move position past this match
 		switch {
 		case start == end:
-			// Empty match: advance by 1 to avoid infinite loop
-			pos = end + 1
+			// Empty match: advance past the next code point (stdlib behavior)
+			pos = end + emptyMatchStep(haystack, end)
 		case end > pos:
 			pos = end
 		default:
@@ -413,7 +427,7 @@ func (e *Engine) FindAllSubmatch(haystack []byte, n int) []*MatchWithCaptures {
 		// Skip empty matches at the end of previous non-empty match (stdlib behavior)
 		//nolint:gocritic // badCond: intentional - checking empty match at lastMatchEnd
 		if matchStart == matchEnd && matchStart == lastMatchEnd {
-			pos++
+			pos += emptyMatchStep(haystack, pos)
 			if pos > len(haystack) {
 				break
 			}
@@ -430,7 +444,7 @@ func (e *Engine) FindAllSubmatch(haystack []byte, n int) []*MatchWithCaptures {
 		// Move position past this match
 		switch {
 		case matchStart == matchEnd:
-			pos = matchEnd + 1
+			pos = matchEnd + emptyMatchStep(haystack, matchEnd)
 		case matchEnd > pos:
 			pos = matchEnd
 		default:
